@@ -1031,6 +1031,99 @@ func (x *runner) preIssuerCase(root, pi *authority, rootSKI, piSKI bool) {
 	}
 }
 
+// ekuCases: who counts as a pre-issuer is decided from the KeyPurposeIds of chain[1] — by the model on the trace lines, and here by
+// looking for the CT key purpose in the raw extension. The pre-issuer's extKeyUsage is rewritten with the splicer and re-signed.
+func (x *runner) ekuCases(root, pi *authority) {
+	r := x.r
+	ctOID := []byte{0x2b, 0x06, 0x01, 0x04, 0x01, 0xd6, 0x79, 0x02, 0x04, 0x04}
+	near := []byte{0x2b, 0x06, 0x01, 0x04, 0x01, 0xd6, 0x79, 0x02, 0x04, 0x05}
+	prefix := []byte{0x2b, 0x06, 0x01, 0x04, 0x01, 0xd6, 0x79, 0x02, 0x04}
+	server := []byte{0x2b, 0x06, 0x01, 0x05, 0x05, 0x07, 0x03, 0x01}
+	anyEKU := []byte{0x55, 0x1d, 0x25, 0x00}
+	forms := []struct {
+		name string
+		ids  [][]byte
+	}{{"ct", [][]byte{ctOID}}, {"server+ct", [][]byte{server, ctOID}}, {"ct+server", [][]byte{ctOID, server}}, {"any+ct", [][]byte{anyEKU, ctOID}},
+		{"near-miss", [][]byte{near}}, {"prefix", [][]byte{prefix}}, {"server", [][]byte{server}}, {"any", [][]byte{anyEKU}}, {"absent", nil},
+		{"unknown+ct+unknown", [][]byte{{0x2a, 0x03}, ctOID, {0x2a, 0x04}}}}
+	c, err := stdx509.ParseCertificate(pi.der)
+	if err != nil {
+		return
+	}
+	pp, ok := splitTBS(c.RawTBSCertificate)
+	k := findExt(pp.exts, oidEKU)
+	if !ok || k < 0 {
+		x.out.Fail("gen", "pre-issuer without extKeyUsage")
+		return
+	}
+	leafKey := x.k.leafs[r.Intn(len(x.k.leafs))]
+	tm := rndTemplate(r, rndSerial(r))
+	derP, err := stdx509.CreateCertificate(rand.Reader, tm, pi.tmpl, leafKey.Public(), pi.sgn.key)
+	if err != nil {
+		return
+	}
+	cP, _ := stdx509.ParseCertificate(derP)
+	bp, ok := splitTBS(cP.RawTBSCertificate)
+	if !ok {
+		return
+	}
+	pre := bp.insertExt(r.Intn(len(bp.exts)+1), mkExt(oidPoison, true, []byte{5, 0})).assemble()
+	for _, f := range forms {
+		q := pp.clone()
+		if f.ids == nil {
+			q.exts = append(append([][]byte{}, pp.exts[:k]...), pp.exts[k+1:]...)
+		} else {
+			var ids [][]byte
+			for _, id := range f.ids {
+				ids = append(ids, mk(0x06, id))
+			}
+			q.exts[k] = mkExt(oidEKU, false, mk(0x30, ids...))
+		}
+		der, err := signTBS(q.assemble(), root.sgn.key)
+		if err != nil {
+			continue
+		}
+		var pc *x509.Certificate
+		verifkit.Guard(func() { pc, err = x509.ParseCertificate(der) })
+		if pc == nil || x509.IsFatal(err) {
+			x.out.Count("class:eku-" + f.name + "-unparsable")
+			continue
+		}
+		isPre := false
+		for _, id := range f.ids {
+			isPre = isPre || bytes.Equal(id, ctOID)
+		}
+		x.out.Count(fmt.Sprintf("class:eku-%s-preissuer=%v", f.name, isPre))
+		key := "eku " + f.name + " pre=" + h(pre) + " chain1=" + h(der)
+		cp := x.opCanon(pre)
+		o, errB := x.opBuild(pre, pc, cp)
+		if isPre != (errB == nil) {
+			x.out.Fail(key, fmt.Sprintf("BuildPrecertTBS with this certificate as pre-issuer: error %v, CT key purpose present %v", errB, isPre))
+		}
+		ch := x.chainOf(pre, pi.sgn.key, pc, root.parsed)
+		if ch == nil {
+			continue
+		}
+		leaf := x.opLeafPre(pre, ch, cp)
+		if leaf == nil {
+			x.out.Fail(key, "no leaf")
+			continue
+		}
+		pe := leaf.TimestampedEntry.PrecertEntry
+		wantKey, wantIssuer := sha256.Sum256(pc.RawSubjectPublicKeyInfo), bp.field(fIssuer)
+		if isPre {
+			wantKey, wantIssuer = sha256.Sum256(root.parsed.RawSubjectPublicKeyInfo), pc.RawIssuer
+			if errB == nil && !bytes.Equal(o, pe.TBSCertificate) {
+				x.out.Fail(key, "leaf TBS differs from BuildPrecertTBS with the pre-issuer")
+			}
+		}
+		po, ok := splitTBS(pe.TBSCertificate)
+		if !ok || pe.IssuerKeyHash != wantKey || !bytes.Equal(po.field(fIssuer), wantIssuer) {
+			x.out.Fail(key, fmt.Sprintf("pre-issuer detection: CT key purpose present %v, but issuer / issuer key hash of the entry say otherwise", isPre))
+		}
+	}
+}
+
 // readCrit reports whether a raw Extension carries critical TRUE.
 func readCrit(raw []byte) ([]byte, bool) {
 	_, v, _, _, _ := readTLV(raw)
@@ -1121,10 +1214,24 @@ func (x *runner) preRoutes(bp, bf parts, root, pi *authority, cls string, expect
 			continue
 		}
 		if !expectEqual {
+			// precertificate without AKI, final certificate with the library's AKI placement: the code appends the key id at the end, so the
+			// routes differ (the property states this case under the hypothesis `AkiRel.append`). What must still hold: the ONLY difference is
+			// where the authority key id sits — same fields, same other extensions in the same order, same AKI extension bytes.
 			if bytes.Equal(a, b) {
 				x.out.Count("class:aki-midlist-yet-equal")
-			} else {
-				x.out.Count("class:aki-appended-vs-library-placement(not a finding)")
+				continue
+			}
+			x.out.Count("class:aki-appended-vs-library-placement(hypothesis of routes_commute_preissuer not met)")
+			pa, okA := splitTBS(a)
+			pb, okB := splitTBS(b)
+			ka, kb := -1, -1
+			if okA && okB {
+				ka, kb = findExt(pa.exts, oidAKI), findExt(pb.exts, oidAKI)
+			}
+			if !okA || !okB || ka != len(pa.exts)-1 || kb < 0 || !bytes.Equal(bytes.Join(pa.pre, nil), bytes.Join(pb.pre, nil)) ||
+				!bytes.Equal(pa.exts[ka], pb.exts[kb]) ||
+				!bytes.Equal(bytes.Join(pa.exts[:ka], nil), bytes.Join(append(append([][]byte{}, pb.exts[:kb]...), pb.exts[kb+1:]...), nil)) {
+				x.out.Fail(key, "routes differ in more than the position of the authority key id: "+h(a)+" vs "+h(b))
 			}
 			continue
 		}
@@ -1359,6 +1466,10 @@ func TestVerifC03(t *testing.T) {
 		rs, ps := i%2 == 0, (i/2)%2 == 0
 		x.preIssuerCase(f.root[b2i(rs)], f.pi[b2i(rs)][b2i(ps)], rs, ps)
 	}
+	for i, n := 0, verifkit.N(3, 30); i < n; i++ {
+		f := fams[i%len(fams)]
+		x.ekuCases(f.root[1], f.pi[1][i%2])
+	}
 	for i, n := 0, verifkit.N(6, 60); i < n; i++ {
 		x.verifyCase(fams[0].root[i%2])
 	}
@@ -1415,7 +1526,7 @@ func TestVerifC03(t *testing.T) {
 	}
 
 	// non-canonical and malformed TBSCertificates
-	for i, n := 0, verifkit.N(12, 120); i < n; i++ {
+	for i, n := 0, verifkit.N(8, 80); i < n; i++ {
 		x.variantCases(fams[i%3].root[i%2])
 	}
 	x.lengthBoundaries(fams[0].root[1])
